@@ -286,9 +286,9 @@ def churn_programs(rng, quick):
     """every kind once per run at a size drawn from the ladder (thorough: every kind at two sizes)"""
     out = []
     for kind in CHURN_KINDS:
-        # quick: one size of 1100..3000 (>= 700 freed objects in every build; the paced build collects for most kinds);
+        # quick: one size of 1100 / 1700 (>= 700 freed objects in every build; the paced build collects for most kinds);
         # thorough / aimed search: 3000 and one of 5000, 8000
-        sizes = [rng.choice(CHURN_LADDER[1:4])] if quick else [CHURN_LADDER[3], rng.choice(CHURN_LADDER[4:])]
+        sizes = [rng.choice(CHURN_LADDER[1:3])] if quick else [CHURN_LADDER[3], rng.choice(CHURN_LADDER[4:])]
         if kind == "class":
             sizes = [min(s, 1100) for s in sizes]
         for n in sizes:
